@@ -106,8 +106,8 @@ structure Doc (V : Type) where
 /-- how many bytes the records of one save take (serialisation itself is not modelled) -/
 structure Layout where
   recLen : Nat → Nat   -- object number ↦ bytes of `id gen obj … endobj\n`
-  xrefLen : Nat        -- bytes of the cross-reference stream object
-  tailLen : Nat        -- bytes of `\nstartxref\n…\n%%EOF`
+  xrefLen : SaveInfo → Nat   -- bytes of the cross-reference stream object of that save
+  tailLen : SaveInfo → Nat   -- bytes of `\nstartxref\n…\n%%EOF`
 
 variable {V : Type}
 
@@ -320,7 +320,8 @@ def commit (P : Params V) (L : Layout) (d : Doc V) (pr : Prep V) (w : Written V)
       refs := refs, changes := chInsert pr.st2.changes pr.xid (P.xrefVal (saveInfoOf pr w refs rows), 0), cache := [],
       objs := w.objs ++ [⟨w.len, pr.xid, 0, P.xrefVal (saveInfoOf pr w refs rows), []⟩],
       secs := pr.st2.secs ++ [⟨w.len, [⟨0, rows⟩], pr.size, d.tr.prev, d.tr.root, pr.infoRef⟩],
-      len := w.len + L.xrefLen + L.tailLen, startxref := w.len - pr.st2.start }
+      len := w.len + L.xrefLen (saveInfoOf pr w refs rows) + L.tailLen (saveInfoOf pr w refs rows),
+      startxref := w.len - pr.st2.start }
 
 /-- `Storage::save` (repaired). On failure nothing of the attempt is left in the backend and the
     promise for the cross-reference stream is withdrawn; a table the reader would refuse is not written. -/
@@ -492,7 +493,7 @@ def saveOld (P : Params V) (L : Layout) (d : Doc V) : Doc V × Out SaveInfo :=
       let st3 : St V :=
         { st2 with refs := refs, changes := chInsert st2.changes xid (P.xrefVal xinfo, 0), cache := [],
                    objs := w.objs ++ [xobj], secs := st2.secs ++ [sec],
-                   len := w.len + L.xrefLen + L.tailLen, startxref := xpos }
+                   len := w.len + L.xrefLen xinfo + L.tailLen xinfo, startxref := xpos }
       (⟨st3, d.tr⟩, .ok xinfo)
   | (w, o) => ({ d with st := { st2 with refs := w.refs, objs := w.objs, len := w.len } },
                match o with | .ok _ => .err | .err => .err | .panic => .panic | .oof => .oof)
